@@ -43,7 +43,9 @@ def kread (kbuf : List Byte) (peerShut : Bool) (cap : Nat) (o : Option Outcome) 
   | some (.ok k) => kfull kbuf peerShut cap k
   | some .eagain => (.eagain, kbuf)
   | some .eintr => (.eagain, kbuf)        -- not reachable through `skipEintr`
-  | some (.err e) => if e = 11 ∨ e = 4 ∨ e = 0 then (.eagain, kbuf) else (.err e, kbuf)   -- `err` = errno other than EAGAIN/EINTR
+  -- `err e`: errno in 1..4094 other than EAGAIN/EINTR (Linux errnos are < 4095 = -UV_EOF); anything
+  -- else is not an errno and is read as EAGAIN
+  | some (.err e) => if e = 11 ∨ e = 4 ∨ e = 0 ∨ 4095 ≤ e then (.eagain, kbuf) else (.err e, kbuf)
 
 /-- `do nread = read(...) while (nread < 0 && errno == EINTR)` (stream.c:1063-1066, 1078-1081):
     number of calls made, the deciding outcome, the outcomes left -/
